@@ -1007,6 +1007,13 @@ AUTO_COMP = {"both": "u32", "sendonly": "std::cell::Cell<u32>", "synconly": "std
 AUTO_SUBJ = {"world": "aw::TWorld", "archetype": "aw::Ta", "entity": "Entity<aw::Ta>", "direct": "EntityDirect<aw::Ta>"}
 
 def autotrait_src(item):
+    if item["subject"] in ("iter", "itermut", "view", "borrowobj"):
+        expr = {"iter": "world.ta.iter()", "itermut": "world.ta.iter_mut()", "view": "world.view(e).unwrap()", "borrowobj": "world.borrow(e).unwrap()"}[item["subject"]]
+        return ("#![forbid(unsafe_code)]\n#![allow(warnings)]\nuse gecs::prelude::*;\npub struct Comp(pub %s);\n"
+                "mod aw { use super::*; ecs_world! { ecs_name!(TWorld); ecs_archetype!(Ta, Comp); } }\nuse aw::*;\n"
+                "fn assert_send<T: Send>(_: &T) {}\nfn assert_sync<T: Sync>(_: &T) {}\nfn assert_copy<T: Copy>(_: &T) {}\n"
+                "fn run(mut world: TWorld, e: Entity<Ta>) { let x = %s; assert_%s(&x); }\nfn main() {}\n"
+                % (AUTO_COMP[item["class"]], expr, item["trait"].lower()))
     return ("#![forbid(unsafe_code)]\n#![allow(warnings)]\nuse gecs::prelude::*;\npub struct Comp(pub %s);\n"
             "mod aw { use super::*; ecs_world! { ecs_name!(TWorld); ecs_archetype!(Ta, Comp); } }\n"
             "fn assert_send<T: Send>() {}\nfn assert_sync<T: Sync>() {}\nfn assert_copy<T: Copy>() {}\n"
@@ -1035,7 +1042,10 @@ def client_corpus(tier, seed):
         jobs.append(("positive", {"name": name}, special_src(body), True, []))
     autos, st2 = tlc_lines("AutoTraitMC", "SPECIFICATION Spec\nINVARIANTS Export\nCHECK_DEADLOCK FALSE\n", "AUTOTRAIT", workers=1)
     for it in autos:
-        jobs.append(("autotrait", it, autotrait_src(it), it["holds"], [] if it["holds"] else ["E0277"]))
+        must = it.get("must", "compile" if it["holds"] else "reject")
+        if must == "any":
+            continue
+        jobs.append(("autotrait", it, autotrait_src(it), must == "compile", [] if must == "compile" else ["E0277"]))
     counts = {"forbidden": 0, "allowed": 0}
     def run(job):
         kind, desc, src, compiles, errs = job
